@@ -33,6 +33,8 @@ TECHNIQUE += "; repr -> from_raw/parse_fmt with stored specs whose fill characte
 LEVEL_TEXT += ' Added clause: the stored format spec and the text survive repr also when the fill is a colon.'
 TECHNIQUE += '; render - derive - render against a never-rendered twin for every modifier'
 LEVEL_TEXT += ' Added clause: rendering keeps no state that a modifier fails to invalidate.'
+TECHNIQUE += '; converse inclusion: every match of the stripping regex begins with ESC'
+LEVEL_TEXT += ' Added clause: only escape sequences are stripped.'
 LEVEL_NOTE = 'Trusted: format(text, spec) of the standard library; re semantics as parsed by re._parser.'
 EXPLANATION = ('Static analysis of /repo sources, TatSu not imported. Style.apply / apply_style / from_raw are interpreted by the '
                'whitelisted evaluator on checker-built style objects; regex literals of tatsu/util/tty.py are recompiled by the checker.')
